@@ -60,6 +60,12 @@ def gen_direct(rng, infeasible=False, classes=None, plain=False):
             hi = round(lo + rng.choice([0, rng.uniform(0.5, 12)]), 2)
             x = round(rng.uniform(lo, hi), 3) if hi > lo else lo
         l.append(float(lo)); u.append(float(hi)); x0.append(x)
+    if rng.random() < 0.1:
+        # badly scaled: some continuous variables live on a scale of 1e4 .. 1e7 next to booleans and unit-sized ones
+        S_ = rng.choice([1e4, 1e6, 1e7])
+        for i in range(n):
+            if i not in bools and rng.random() < 0.5:
+                l[i], u[i], x0[i] = l[i] * S_, u[i] * S_, x0[i] * S_
     c = [round(rng.uniform(-10, 10), 2) if rng.random() < 0.85 else 0.0 for _ in range(n)]
     if classes is None:
         classes = rng.choice([["U", "L", "S", "N"], ["U", "L", "S", "N"], ["U"], ["L"], ["S"], ["N"], ["U", "L"], ["S", "N"], []])
@@ -423,6 +429,14 @@ class Conversation:
         rk = getattr(self, "ref_x", {}).get(k)
         if rk is not None:
             pts.append(np.asarray(rk, float))
+        # boolean variables only ever take the values 0 and 1: probe them there (a request that tightens the bounds of a
+        # boolean variable to [0,1] describes the same feasible set)
+        if want:
+            for j_, z in enumerate(pts):
+                if rk is not None and z is pts[-1]:
+                    continue
+                for i_ in want:
+                    z[i_] = float((i_ + j_) % 2)
         samples = self.samples if getattr(self, "cur_target", "value") == "robust" else None
         objs = []
         for z in pts:
@@ -573,7 +587,13 @@ class Conversation:
         # first-order solvers (OSQP, SCS) stop on residuals relative to the scale of the whole problem
         # interior-point / simplex solvers: residual tolerances relative to the norms of x and b (1e-7 relative, on top of 1e-6)
         gnorm = 1 + float(np.abs(x).max(initial=0)) + float(np.abs(b).max(initial=0))
-        gscale = gnorm if ftol > 1e-5 else 0.1 * gnorm
+        cs_ = (getattr(self, "cur_solver", None) or ("SCIP" if bools and not self.soft else "CLARABEL")).upper()
+        if ftol > 1e-5:
+            gscale = gnorm               # first-order methods
+        elif cs_ in ("SCIP", "SCIPY"):
+            gscale = 0.0                 # simplex / branch and bound: tolerances are per bound and per row
+        else:
+            gscale = 0.1 * gnorm         # interior point
         rowscale = np.maximum(rowscale, gscale)
         for kk, name in (("bu", "upper bound"), ("bl", "lower bound")):
             bound = np.asarray(op.u if kk == "bu" else op.l, float)
